@@ -83,25 +83,27 @@ class Target:
 def make_quad(torch):
     class QuadFn(torch.autograd.Function):
         @staticmethod
-        def forward(ctx, x, G, b):
+        def forward(ctx, x, G, b, lo, hi):
             ctx.save_for_backward(x, G, b)
+            if x[0] < lo or x[0] > hi:
+                return x.sum() * float("nan")
             return -(0.5 * (x @ (G @ x)) + b @ x)
 
         @staticmethod
         def backward(ctx, gout):
             x, G, b = ctx.saved_tensors
-            return gout * (-(G @ x + b)), None, None
+            return gout * (-(G @ x + b)), None, None, None, None
 
     class QuadJoint:
         """log density -(x'Gx/2 + b'x), G symmetric integer: gradient -(Gx+b) exactly"""
         id = "joint"
 
-        def __init__(self, params, G, b):
-            self.params, self.G, self.b = params, G, b
+        def __init__(self, params, G, b, lo, hi):
+            self.params, self.G, self.b, self.lo, self.hi = params, G, b, lo, hi
 
         def __call__(self):
             x = torch.cat([p.tensor for p in self.params], -1)
-            return QuadFn.apply(x, self.G, self.b)
+            return QuadFn.apply(x, self.G, self.b, self.lo, self.hi)
 
     return QuadJoint
 
@@ -135,11 +137,12 @@ def build_target(spec, values):
         dd = Distribution("dd", torch.distributions.Dirichlet, w, {"concentration": Parameter("a", T(spec["alpha"]))})
         r = Parameter("r", T(values[1]))
         dg = Distribution("dg", torch.distributions.Gamma, r,
-                          {"concentration": Parameter("c", T(spec["conc"])), "rate": Parameter("rt", T(spec["rate"]))})
+                          {"concentration": Parameter("c", T(spec["conc"])), "rate": Parameter("rt", T(spec["rate"]))},
+                          validate_args=False)  # outside the support: nan (the degenerate branch), not a raise
         return [w, r], JointDistributionModel("joint", [dd, dg])
     if kind == "quad":
         ps = [Parameter(f"q{i}", T(v)) for i, v in enumerate(values)]
-        return ps, make_quad(torch)(ps, T(spec["G"]), T(spec["b"]))
+        return ps, make_quad(torch)(ps, T(spec["G"]), T(spec["b"]), spec.get("lo", -math.inf), spec.get("hi", math.inf))
     raise ValueError(kind)
 
 
@@ -364,11 +367,23 @@ def enc_machine(cfg, state, lj, epoch, acc_total, opstates):
               str(st["adapt_count"]), str(st["accept"]), str(st["reject"]), str(len(st["window"]))]
         w += [str(x) for x in st["window"]]
         if o["kind"] == "hmc":
-            n = sum(sizes[k] for k in o["pidx"])
+            # gradient of the joint w.r.t. the operator's OWN coordinates at the current state: -(G_oo q + b_eff),
+            # b_eff = b_o + G_ox x_other — the other parameters of the joint enter through their CURRENT values
+            offs, pos = [], 0
+            for sz in sizes:
+                offs.append(list(range(pos, pos + sz)))
+                pos += sz
+            own = [i for k in o["pidx"] for i in offs[k]]
+            other = [i for i in range(pos) if i not in own]
+            flat_state = [x for v in state for x in v]
+            n = len(own)
             dense = isinstance(o["im"][0], list)
             w += [str(o["steps"]), "dense" if dense else "diag", str(n)]
             w += [f2h(x) for x in ([v for row in o["im"] for v in row] if dense else o["im"])]
-            w += [f2h(x) for row in o["G"] for x in row] + [f2h(x) for x in o["b"]]
+            w += [f2h(o["G"][i][j]) for i in own for j in own]
+            w += [f2h(float(Fraction(o["b"][i]) + sum(Fraction(o["G"][i][j]) * Fraction(flat_state[j]) for j in other)))
+                  for i in own]
+            w += [f2h(o.get("lo", -math.inf)), f2h(o.get("hi", math.inf))]
     return w
 
 
@@ -617,6 +632,10 @@ def check_records(ck: Check, cfg, res, found, label):
         used_u = n_rand > own_rand
         degenerate = math.isinf(r["hr"])
         lp = r.get("lp_proposed")
+        if degenerate:
+            ck.bucket("oracle/branch/hastings-inf")
+        elif lp is None or math.isnan(lp) or math.isinf(lp):
+            ck.bucket("oracle/branch/density-nan-or-inf")
         # 1. density used for the proposal = target from scratch at the proposal
         if not degenerate:
             fr = tgt.fresh(r["proposed"])
@@ -751,6 +770,52 @@ def tuning_cases(ck: Check, drv, rng, n, found):
                           {"tune_only": {"kind": kind, "scale": scale, "acc": acc, "target": target, "count": count}}, 0))
 
 
+def precision_cases(ck: Check, drv, rng, n, found):
+    """GMRF block update: the real `propose_precision` (bare instance, scripted uniforms) against
+    `precisionMultiplier`; torch computes the multiplier in float32 (`python float * torch.rand(1)`), hence 1e-6"""
+    import random
+
+    torch = _torch()
+    from torchtree.core.parameter import Parameter
+    from torchtree.inference.mcmc.gmrf_block_updating import GMRFPiecewiseCoalescentBlockUpdatingOperator as B
+
+    for _ in range(n):
+        sc_ = rng.choice([1.0, 1.0 + rng.random() * 4, 2.0, 1.0 + 10 ** rng.uniform(-3, 1)])
+        tau = math.exp(rng.uniform(-2, 2))
+        op = B.__new__(B)
+        op._scaler = sc_
+
+        class G:
+            precision = Parameter(None, torch.tensor([tau], dtype=torch.float64))
+
+        op.gmrf = G()
+        r2 = random.Random(rng.randrange(1 << 30))
+        try:
+            with Scripted(torch, r2) as s_:
+                new = float(op.propose_precision())
+        except Exception as e:
+            ck.mismatch("propose_precision raised", {"scaler": sc_, "error": f"{type(e).__name__}: {e}"})
+            continue
+        us = [e[1] for e in s_.events if e[0] == "rand"]
+        rep = drv.ask(" ".join(["prec", f2h(sc_)] + [f2h(u) for u in (us + [0.5, 0.5])[:2]]))
+        mult = new / tau
+        ck.case(("prec", sc_, tuple(us)), {"via": "propose_precision", "scaler": sc_, "uniforms": us,
+                                           "impl_multiplier": mult, "model": rep},
+                nontrivial=sc_ != 1.0, bucket="block/precision-multiplier")
+        if rep == "bad-op":
+            ck.mismatch("driver bad-op (prec)", {"scaler": sc_})
+            continue
+        mm, used = h2f(rep.split()[0]), int(rep.split()[1])
+        thr = (sc_ - 1 / sc_) / ((sc_ - 1 / sc_) + 2 * math.log(sc_)) if sc_ != 1.0 else 0.0
+        tie = len(us) == 2 and abs(us[0] - thr) <= 1e-6
+        if used != len(us) or (not tie and not close(mm, mult, 1e-6)):
+            ck.mismatch("precision multiplier differs from model", {"scaler": sc_, "uniforms": us, "impl": mult, "model": mm})
+        if not (1 / sc_ * (1 - 1e-6) <= mult <= sc_ * (1 + 1e-6)):
+            found.append(("GMRFPiecewiseCoalescentBlockUpdatingOperator:proposal-kernel",
+                          {"clause": "precision multiplier outside [1/scaler, scaler]", "scaler": sc_, "multiplier": mult},
+                          {"tune_only": {"kind": "block", "scale": sc_, "acc": 0.0, "target": 1.0, "count": 0}}, 0))
+
+
 def probe_boldness(ck: Check, rng):
     """tie `boldness(kind, scale)` to behaviour: at a larger boldness value the real operator's
     proposals (same random draws) must spread at least as far"""
@@ -830,19 +895,31 @@ def gen_cfg(rng, family, adapt, iterations):
         for sz in sizes:
             init.append([rng.randint(-8, 8) / 4 for _ in range(sz)])
         t = {"kind": "quad", "G": G, "b": [float(rng.randint(-2, 2)) for _ in range(n)], "init": init}
-        mass = [rng.choice([0.5, 1.0, 2.0]) for _ in range(n)]
-        ops = [op("hmc", list(range(len(sizes))), rng.choice([0.5, 0.25, 0.125]), steps=rng.randint(1, 4), mass=mass,
+        # HMC on all parameters, or only on the first one while sliding windows move the other (which enters
+        # HMC's gradient through the coupling in G)
+        hmc_pidx = [0] if (len(sizes) > 1 and family == "quad" and rng.random() < 0.6) else list(range(len(sizes)))
+        nm = sum(sizes[k] for k in hmc_pidx)
+        mass = [rng.choice([0.5, 1.0, 2.0]) for _ in range(nm)]
+        ops = [op("hmc", hmc_pidx, rng.choice([0.5, 0.25, 0.125]), steps=rng.randint(1, 4), mass=mass,
                   im=[1.0 / m for m in mass], G=G, b=t["b"], target=0.8),
                op("window", [0], rng.choice([0.5, 1.0, 2.0]))]
         if len(sizes) > 1:
             ops.append(op("window", [1, 0], rng.choice([0.5, 1.0])))
+        if family == "quad_nan":
+            # the stub target is nan outside a band around the start: HMC trials and window moves leave it
+            # (all ten trials raising -> `inf`; nan density) -> both degenerate branches of MCMC.run
+            half_band = rng.choice([0.0, 0.0625, 0.5])
+            t["lo"], t["hi"] = init[0][0] - half_band, init[0][0] + half_band
+            ops[0]["lo"], ops[0]["hi"] = t["lo"], t["hi"]
         exact = True
     any_adapt = any(o["adapt"] for o in ops)
     return {"family": family, "target": t, "ops": ops, "iterations": iterations,
-            "exact_expected": (not any_adapt) and all(o["kind"] != "hmc" or family == "quad" for o in ops)}
+            # bit-exact agreement is demanded when only elementwise IEEE operations are on the state path: no
+            # adaptation (exp/log in the scale) and no HMC (torch's matmul sums in its own order once the state is
+            # no longer dyadic; bit-exactness of the integrator is C16's tie)
+            "exact_expected": (not any_adapt) and all(o["kind"] != "hmc" for o in ops)}
 
 
-# --------------------------------------------------------------------------- the check
 def run(ck: Check):
     ck.rule = (
         "one case = one transition (iteration) of the REAL MCMC.run, recorded by wrapping operator.step/accept/"
@@ -880,8 +957,8 @@ def run(ck: Check):
     rng = ck.rng
     found = []
     thorough = ck.thorough()
-    n_runs = 120 if thorough else 16
-    iters = (30, 80) if thorough else (25, 45)
+    n_runs = 500 if thorough else 100
+    iters = (30, 80) if thorough else (25, 60)
     runs = []
     try:
         corpus_dir = VERIF / "corpus" / "C15"
@@ -889,10 +966,10 @@ def run(ck: Check):
             c = json.loads(f.read_text())
             if "cfg" in c:
                 runs.append((c["cfg"], c["tape_seed"], "corpus/" + f.stem))
-        fams = ["normal", "gamma_exp", "dirichlet", "quad"]
+        fams = ["normal", "gamma_exp", "dirichlet", "quad", "quad_nan"]
         for i in range(n_runs):
-            fam = fams[i % 4]
-            adapt = [True, False, "mixed"][(i // 4) % 3]
+            fam = fams[i % 5]
+            adapt = [True, False, "mixed"][(i // 5) % 3]
             runs.append((gen_cfg(rng, fam, adapt, rng.randint(*iters)), rng.randrange(1 << 30), f"run{i}"))
         for cfg, tseed, label in runs:
             try:
@@ -912,7 +989,8 @@ def run(ck: Check):
             if drv:
                 compare_run(ck, drv, cfg, res, label)
         if drv:
-            tuning_cases(ck, drv, rng, 400 if thorough else 80, found)
+            tuning_cases(ck, drv, rng, 1500 if thorough else 300, found)
+            precision_cases(ck, drv, rng, 400 if thorough else 80, found)
         probe_boldness(ck, rng)
     finally:
         if drv:
